@@ -1,6 +1,6 @@
 #!/bin/bash
 # seedimport.sh <prop> <n> : import /tmp/seed2_<prop>/seed/{patch.diff,demo.rs,meta.json} as seeded/<prop>-s<n>, verifying natively first
-p=$1; n=$2; sd=/tmp/seed2_$p/seed
+p=$1; n=$2; sd=${SEEDROOT:-/tmp/seed2}_$p/seed
 mkdir -p /tmp/seed2_imp_$p; cp $sd/patch.diff /tmp/seed2_imp_$p/patch$n.diff; cp $sd/demo.rs /tmp/seed2_imp_$p/demo$n.rs
 /verif/seedtest.sh /tmp/seed2_imp_$p $n $p 2>&1 | grep -v "^worktree" | sed 's/test result: //; s/; 0 ignored.*//'
 d=/verif/seeded/$p-s$n; mkdir -p $d; cp $sd/patch.diff $d/patch.diff; cp $sd/demo.rs $d/demo.rs
